@@ -291,6 +291,23 @@ def run(ctx):
         msgs = safe_validate(res, eng, d, case)
         if msgs is not None:
             verdict(res, eng, d, case, msgs)
+        # numbers no double can hold (the grammar accepts the literal, float() makes it inf) and the largest / smallest finite ones
+        if a.kind in ("number", "integer") and it.kind == "attr" and len(it.toks) == 1:
+            for lit in ("1e999", "-1e999", "9" * 320 + ".0", "1.7976931348623157e308", "-1.7976931348623157e308", "5e-324", "-0.0"):
+                it.toks = [gen.Tok("num", lit)]
+                it.value = float(lit)
+                text = render.render([node]).text
+                try:
+                    d = eng.loads(text, include_position=(len(lit) % 2 == 0))
+                except Exception as ex:
+                    res.count("extreme_number_doc_not_accepted:" + type(ex).__name__)
+                    continue
+                res.count("extreme_number_docs")
+                case = {"part": "vocab-extreme-number", "text": text}
+                for via_list in (False, True):
+                    msgs = safe_validate(res, eng, d, case, via_list=via_list)
+                    if msgs is not None and not via_list:
+                        verdict(res, eng, d, case, msgs)
     seeds = []
     for path, text in corpus.texts(ctx):
         try:
